@@ -329,7 +329,8 @@ let process (line : string) : string =
 
 
 (* ---------------------------------------------------------------- tuning
-   TUNEM <search|ga|src> <std|alps|de> <asis|dss|holdout> <rows> <terminals> U <18 user fields> I <18 tuned fields> <valid>
+   TUNEM <search|ga|src> <std|alps|de> <asis|dss|holdout> <rows> <terminals> <reconcile 0|1> U <18 user fields> I <18 tuned fields> <valid>
+   (reconcile = 1: the source calls environment::reconcile, model = tune_rec)
    fields: code patch elitism(-1|0|1) p_mutation p_cross (thousandths) brood layers individuals min_individuals
            tournament mate_zone generations max_stuck_time(-1 = unset) dss(-1) validation(-1) age_gap p_same_layer team *)
 let read_tenv () : tenv =
@@ -368,13 +369,15 @@ let process_tune () : string =
     let va = match next () with "dss" -> VDss | "holdout" -> VHoldout | _ -> VAsIs in
     let rows = next_z () in
     let terms = next_z () in
+    let recon = next_int () = 1 in
     let k = match cls with "search" -> KSearch st | "ga" | "de" -> KGa st | _ -> KSrc (st, va, rows) in
     expect "U";
     let user = read_tenv () in
     expect "I";
     let impl = read_tenv () in
     let impl_valid = next_int () = 1 in
-    let model = tune ln_floor cube_log2 typeid_repaired k terms user in
+    let model = if recon then tune_rec ln_floor cube_log2 typeid_repaired k terms user
+                else tune ln_floor cube_log2 typeid_repaired k terms user in
     (* oracles on the implementation's tuned environment *)
     if not (filled k impl) then add "X" 0 "tune_fills_every_open_parameter";
     if not (kept k user impl) then add "X" 0 "tune_keeps_user_settings";
